@@ -38,6 +38,8 @@ def run(ctx):
     ov = ctx.overlay(main_files=["helpers_test.go", "arch_test.go", "c10_test.go"], replace=gsfa_fast_overlay(ctx))
     b = ctx.go_build(".", ov, name="main_c10")
     obs = ctx.go_run(b, "^TestVerifC10$", cases=casep, timeout_s=3400)
+    remote_obs = [o for o in obs if o.get("remote")]
+    obs = [o for o in obs if not o.get("remote")]
     if len(obs) != len(cases):
         raise Inconclusive(f"{len(obs)} observations for {len(cases)} configurations")
     if not ctx.replay:
@@ -50,19 +52,22 @@ def run(ctx):
                 o["epochs"] = [e1, e2]
             obs += o2
             cases = cases + extra
+    # the configurations with at most one deviating role again, index files opened over loopback HTTP mirrors
+    obs += remote_obs
+    cases = cases + [None] * len(remote_obs)
     rejected = ctx.r4_judge(["EpochLoadAbs", "Trace_EpochLoad"], "Trace_EpochLoad", obs, chunk=6000, timeout_s=3000,
                             cfg_text="SPECIFICATION TSpec\nCONSTRAINT HW\nPOSTCONDITION Done\nCHECK_DEADLOCK FALSE\n")
     for o in obs:
-        ctx.count(sha([o.get("epochs"), o["cfgEpoch"], o["car"], o["assign"]]), o["mismatches"] >= 1)
+        ctx.count(sha([o.get("epochs"), o.get("remote"), o["cfgEpoch"], o["car"], o["assign"]]), o["mismatches"] >= 1)
         if o["consistent"] and o["outcome"] == "rejected":
             ctx.drift += 1
     for i in rejected:
         o = obs[i]
         dev = {r: f for r, f in o["assign"].items() if f != {"kind": r, "src": "A"}}
-        sig = {"op": "load", "outcome": o["outcome"], "deviating": sorted(dev)}
+        sig = {"op": "load" if not o.get("remote") else "load-remote", "outcome": o["outcome"], "deviating": sorted(dev)}
         ctx.violation(sig, f"epoch labels -> {o.get('epochs', [1, 2])}: config epoch label {o['cfgEpoch']}, CAR {o['car']}, deviating files {dev}: outcome={o['outcome']} metaok={o['metaok']} "
                            f"fetch={sorted(set(o['fetch']))} {o['detail']}"[:700], case=cases[i], obs={k: v for k, v in o.items() if k != "fetch"})
-    ctx.samples += [c for c in cases if c["mismatches"] == 2][:2]
+    ctx.samples += [c for c in cases if c and c["mismatches"] == 2][:2]
     ctx.extra["loaded_ok"] = sum(1 for o in obs if o["outcome"] == "ok")
     ctx.extra["rejected"] = sum(1 for o in obs if o["outcome"] == "rejected")
     ctx.assumptions += ["current index formats only (the deprecated formats carry no identity fields to check)", "Filecoin (lassie) mode is not exercised"]
